@@ -796,6 +796,33 @@ static void op_grant_deny()
       judge(std::string("copy_memory_or_grant_access<") + elname<T>::n + ">", kase, v, o, null_res, &eff, ok, "count=" + hex(c));
     }
   }
+  // grant with an allocator that answers near the end of the region (the guest's allocator is untrusted): the destination
+  // block of the copy must lie wholly inside, up to the last byte of the last element
+  for (uint64_t c : { (uint64_t)1, (uint64_t)2, (uint64_t)3 })
+    for (uint64_t k = 1; k <= c * es + es; k++) {
+      uint64_t ans = kSize - k;
+      uint64_t bytes = c * es;
+      std::string kase = std::string("grant-alloc|") + elname<T>::n + "|" + std::to_string(c) + "|" + std::to_string(k);
+      if (!take(kase)) continue;
+      bool fits = ans + bytes <= kSize;
+      g_sb->get_sandbox_impl()->menv.override_next = true;
+      g_sb->get_sandbox_impl()->menv.answer = ans;
+      bool copied = false;
+      tn<T*> res = nullptr;
+      Out o = guarded([&] { res = rlbox::copy_memory_or_grant_access(*g_sb, reinterpret_cast<T*>(g_arena + 64), (size_t)c, false, copied); });
+      g_sb->get_sandbox_impl()->menv.override_next = false;
+      bool null_res = res.UNSAFE_unverified() == nullptr;
+      Effect eff;
+      Verdict v = fits ? MUST_PROCEED : MUST_ABORT;
+      if (fits) {
+        eff.region = g_mem;
+        eff.off = ans;
+        eff.len = bytes;
+        eff.bytes.assign(g_ref_arena.begin() + 64, g_ref_arena.begin() + 64 + (size_t)bytes);
+      }
+      if (v == MUST_ABORT && o == O_RET && null_res) o = O_ALLOC;
+      judge(std::string("copy_memory_or_grant_access<") + elname<T>::n + ">(allocator answers near the end)", kase, v, o, null_res, &eff, !fits || (copied && !null_res), "count=" + std::to_string(c) + " allocator answer=end-" + std::to_string(k));
+    }
   // deny: sandbox-side source
   for (auto& s : sstarts()) {
     uint64_t rem = s.off == ~0ull ? kSize : kSize - s.off;
@@ -876,7 +903,7 @@ int main(int argc, char** argv)
     op_range_variants<double>();
   }
   if (want({ "string" })) op_string();
-  if (want({ "grant", "deny" })) {
+  if (want({ "grant", "deny", "grant-alloc" })) {
     op_grant_deny<char>();
     op_grant_deny<short>();
     op_grant_deny<double>();
